@@ -44,6 +44,10 @@ func (v *V) Block(ctx context.Context, tok int) string {
 	return "cancelled"
 }
 
+// Sum is the probe method of the "other connections are still served" observation: it is not logged, so
+// it never shows up among the invocations attributed to the case under test.
+func (v *V) Sum(a, b int) int { return a + b }
+
 // Panic panics with a payload chosen by kind (C13).
 func (v *V) Panic(ctx context.Context, kind int) (int, error) {
 	v.L.Add("V.Panic", kind)
